@@ -94,6 +94,16 @@ func runC16(c *Ctx, idx int) {
 		dseed: r.Int63(),
 	}
 	sc.CancelAtEnd = r.Intn(2) == 0
+	if idx%12 == 4 {
+		// a parallel turnover that is cancelled while the species reproduce and is made again (everything survives, so that it
+		// can be): the goroutines of the aborted attempt must be gone, what they issued stays part of the history
+		sc.Opts.SurvivalThresh = 1.0
+		sc.AbortAt = 2 + r.Intn(sc.Epochs-3)
+		if sc.RestoreAt == sc.AbortAt {
+			sc.RestoreAt = 0
+		}
+		c.Count("scenarios.with_an_aborted_turnover", 1)
+	}
 	runScenario(c, sc, mon)
 }
 
